@@ -1,5 +1,7 @@
 import WzVerif.Driver.Proto
 import WzVerif.Model.Local
+import WzVerif.Model.LocalLife
+import WzVerif.Model.LocalProxy
 namespace Wz.Driver.C18
 open Wz Wz.Proto Wz.Local
 
@@ -7,15 +9,45 @@ open Wz Wz.Proto Wz.Local
 `trace <op> <op> ...` replays an interleaving on the heap model and prints, after every step, the
 step's result and what every context observes. Ops are comma separated:
   set,c,v,k,b   get,c,v,k   del,c,v,k   iter,c,v   push,c,v,b   pop,c,v   top,c,v   rel,c,v
-  spawn,p   fresh   pnew,c,attr,v,k | pnew,c,top,v   pget,c,i   pmut,c,i,f
-Vars: 0 and 2 are `Local`s, 1 is a `LocalStack`. Values are box ids; a box has one mutable field
-(driver-level state: the model's values are opaque tokens).
+  spawn,p   fresh   pnew,c,attr,v,k | pnew,c,top,v   pget,c,i   pmut,c,i,f   pdrop,c,i
+  pnew,c,topattr,v | pnew,c,cvar,j | pnew,c,cvarattr,j | pnew,c,const,b | pnew,c,constattr,b |
+  pnew,c,via,i | pnew,c,viaattr,i      cvset,c,j,b      plook,c,i,<special method name>
+  new,c,v   drop,c,v   gc,c   cleanup,c[,variant]   mnew,c,form,v...   mclean,c,k,how
+`v` names a *slot*: slots 0 and 2 hold `Local`s, slot 1 a `LocalStack`; `new` puts a newly constructed
+instance into the slot (the previous one is dropped), `drop` empties it. Instances are created with
+the policy of the constructor extracted from local.py (`Gen.LocalOps.localCtor` / `stackCtor`).
+Values are box ids; a box has one mutable field (driver-level state: the model's values are opaque
+tokens).
 -/
 
+def ctorPolicy (isStack : Bool) : VarPolicy :=
+  (if isStack then Gen.LocalOps.stackCtor else Gen.LocalOps.localCtor).policy
+
+def isStack (v : Nat) : Bool := v == 1
+
+/-- three instances in three slots; addresses are the handles (never re-used by the driver: under
+the extracted policy the address is irrelevant - `fresh_local_unbound`) -/
+def lwInit : LWorld :=
+  lrun LWorld.init [.create (ctorPolicy false) 0 false, .create (ctorPolicy true) 1 true,
+    .create (ctorPolicy false) 2 false]
+
 structure St where
-  w : World := World.init
+  lw : LWorld := lwInit
+  slots : List (Option Nat) := [some 0, some 1, some 2]
   fields : List (Nat × Nat) := []
-  proxies : Array Proxy := #[]
+  proxies : Array (Option PSrc) := #[]
+  /-- `LocalManager` objects: the instances in `.locals` -/
+  managers : Array (List Nat) := #[]
+
+def St.w (st : St) : World := st.lw.w
+
+def St.handle (st : St) (slot : Nat) : Option Nat := (st.slots[slot]?).join
+
+/-- the storage cell behind a slot -/
+def St.var (st : St) (slot : Nat) : Option Nat := do
+  let h ← st.handle slot
+  let i ← st.lw.inst? h
+  pure i.var
 
 def field (st : St) (b : Nat) : Nat := ((st.fields.find? fun p => p.1 == b).map (·.2)).getD 0
 
@@ -40,6 +72,9 @@ def falsyOf (st : St) (b : Nat) : Bool :=
   | 7 => false
   | _ => true
 
+/-- `attrgetter("peer")` on a payload: boxes (kinds 0, 3, 4) have a peer (id + 64), nothing else has -/
+def attrOf (b : Nat) : Option Nat := if kind b == 0 || kind b == 3 || kind b == 4 then some (b + 64) else none
+
 def box (st : St) (b : Nat) : String := s!"{vname b}:{if isScalar b then 0 else field st b}"
 
 /-- mutate a payload object in place (attribute / item / append); scalars are immutable -/
@@ -60,17 +95,30 @@ def res (st : St) : Res → String
   | .attrError => "AttributeError"
   | .stuck => "STUCK"
 
-def isStack (v : Nat) : Bool := v == 1
-
+/-- a method call through the instance in slot `v` -/
 def call (st : St) (c v : Nat) (p : Prog) (a : Args) : St × String :=
-  let r := (runProg st.w c v a p).2
-  ({ st with w := stepEvent st.w (.call c v p a) }, res st r)
+  match st.handle v, st.var v with
+  | some h, some x =>
+    let r := (runProg st.w c x a p).2
+    ({ st with lw := lstep st.lw (.call c h p a) }, res st r)
+  | _, _ => (st, "nolocal")
 
 def obsCtx (st : St) (c : Nat) : String :=
-  let l0 := (call st c 0 Gen.LocalOps.localIter {}).2
-  let l2 := (call st c 2 Gen.LocalOps.localIter {}).2
-  let s1 := (call st c 1 Gen.LocalOps.stackTop {}).2
+  let l0 := if (st.handle 0).isSome then (call st c 0 Gen.LocalOps.localIter {}).2 else "~"
+  let l2 := if (st.handle 2).isSome then (call st c 2 Gen.LocalOps.localIter {}).2 else "~"
+  let s1 := if (st.handle 1).isSome then (call st c 1 Gen.LocalOps.stackTop {}).2 else "~"
   s!"L{l0}M{l2}S{s1}"
+
+def setSlot (st : St) (slot : Nat) (h : Option Nat) : St :=
+  { st with slots := st.slots.set slot h }
+
+def dropSlot (st : St) (slot : Nat) : St :=
+  match st.handle slot with
+  | some h => setSlot { st with lw := lstep st.lw (.drop h) } slot none
+  | none => st
+
+def releaseSlot (st : St) (c slot : Nat) : St :=
+  (call st c slot (if isStack slot then Gen.LocalOps.stackRelease else Gen.LocalOps.localRelease) {}).1
 
 def obsAll (st : St) : String := "/".intercalate ((List.range st.w.nctx).map (obsCtx st))
 
@@ -78,8 +126,8 @@ def step (st : St) (op : List String) : Option (St × String) :=
   match op with
   | ["set", c, v, k, b] => do
     let c ← c.toNat?; let v ← v.toNat?; let k ← k.toNat?; let b ← b.toNat?
-    let (st, _) := call st c v Gen.LocalOps.localSetattr { key := k, val := b }
-    pure (st, "ok")
+    let (st, r) := call st c v Gen.LocalOps.localSetattr { key := k, val := b }
+    pure (st, if r == "None" then "ok" else r)
   | ["get", c, v, k] => do
     let c ← c.toNat?; let v ← v.toNat?; let k ← k.toNat?
     pure (call st c v Gen.LocalOps.localGetattr { key := k })
@@ -101,46 +149,105 @@ def step (st : St) (op : List String) : Option (St × String) :=
     pure (call st c v Gen.LocalOps.stackTop {})
   | ["rel", c, v] => do
     let c ← c.toNat?; let v ← v.toNat?
-    let (st, _) := call st c v (if isStack v then Gen.LocalOps.stackRelease else Gen.LocalOps.localRelease) {}
-    pure (st, "ok")
+    if (st.handle v).isNone then pure (st, "nolocal") else
+    pure (releaseSlot st c v, "ok")
   | ["cleanup", c] => do
-    -- LocalManager.cleanup: release_local on every managed local
+    -- LocalManager.cleanup: release_local on every managed local (here: every live slot)
     let c ← c.toNat?
-    let (st, _) := call st c 0 Gen.LocalOps.localRelease {}
-    let (st, _) := call st c 1 Gen.LocalOps.stackRelease {}
-    let (st, _) := call st c 2 Gen.LocalOps.localRelease {}
-    pure (st, "ok")
+    pure (releaseSlot (releaseSlot (releaseSlot st c 0) c 1) c 2, "ok")
+  | ["cleanup", c, variant] => do
+    let c ← c.toNat?; let variant ← variant.toNat?
+    -- variant 3: `LocalManager(<the Local in slot 0>)` manages that single local
+    if variant == 3 then pure (releaseSlot st c 0, "ok") else
+    pure (releaseSlot (releaseSlot (releaseSlot st c 0) c 1) c 2, "ok")
+  | "mnew" :: _ :: _form :: slots => do
+    -- LocalManager(<one Local> | <list> | <tuple> | <iterator>) / LocalManager() + .locals.append:
+    -- in every form the manager holds exactly the instances passed (`manager_constructor_forms`)
+    let hs ← slots.mapM fun s => do let v ← s.toNat?; st.handle v
+    pure ({ st with managers := st.managers.push hs }, s!"m{st.managers.size}")
+  | ["mclean", c, k, _how] => do
+    -- manager.cleanup(), directly or when the response iterable of the WSGI middleware is closed
+    let c ← c.toNat?; let k ← k.toNat?
+    let hs ← st.managers[k]?
+    if c < st.w.nctx then pure ({ st with lw := cleanupRun st.lw c hs }, "ok") else none
+  | ["new", _, v] => do
+    let v ← v.toNat?
+    let st := dropSlot st v
+    let h := st.lw.insts.length
+    let st := { st with lw := lstep st.lw (.create (ctorPolicy (isStack v)) h (isStack v)) }
+    pure (setSlot st v (some h), s!"h{h}")
+  | ["drop", _, v] => do
+    let v ← v.toNat?
+    if (st.handle v).isNone then pure (st, "nolocal") else
+    pure (dropSlot st v, "ok")
+  | ["gc", _] => pure ({ st with lw := lstep st.lw .gc }, "ok")
   | ["spawn", p] => do
     let p ← p.toNat?
-    pure ({ st with w := stepEvent st.w (.copyCtx p) }, s!"ctx{st.w.nctx}")
-  | ["fresh"] => pure ({ st with w := stepEvent st.w .freshCtx }, s!"ctx{st.w.nctx}")
+    pure ({ st with lw := lstep st.lw (.copyCtx p) }, s!"ctx{st.w.nctx}")
+  | ["fresh"] => pure ({ st with lw := lstep st.lw .freshCtx }, s!"ctx{st.w.nctx}")
   | ["pnew", _, "attr", v, k] => do
     let v ← v.toNat?; let k ← k.toNat?
-    pure ({ st with proxies := st.proxies.push (.attr v k) }, s!"p{st.proxies.size}")
-  | ["pnew", _, "top", v] => do
-    let v ← v.toNat?
-    pure ({ st with proxies := st.proxies.push (.top v) }, s!"p{st.proxies.size}")
+    let x ← st.var v
+    pure ({ st with proxies := st.proxies.push (some (.localAttr x k)) }, s!"p{st.proxies.size}")
+  | ["pnew", _, how, a] => do
+    let a ← a.toNat?
+    let src : PSrc ← match how with
+      | "top" => (st.var a).map (.stackTop · false)
+      | "topattr" => (st.var a).map (.stackTop · true)
+      | "cvar" => some (.cvar a false)
+      | "cvarattr" => some (.cvar a true)
+      | "const" => some (.const a false)
+      | "constattr" => some (.const a true)
+      | "via" => ((st.proxies[a]?).join).map (.via · false)
+      | "viaattr" => ((st.proxies[a]?).join).map (.via · true)
+      | _ => none
+    pure ({ st with proxies := st.proxies.push (some src) }, s!"p{st.proxies.size}")
+  | ["pdrop", _, i] => do
+    let i ← i.toNat?
+    let _ ← (st.proxies[i]?).join
+    pure ({ st with proxies := st.proxies.set! i none }, "ok")
+  | ["cvset", c, j, b] => do
+    let c ← c.toNat?; let j ← j.toNat?; let b ← b.toNat?
+    pure ({ st with lw := lstep st.lw (.cvSet c j b) }, "ok")
   | ["pget", c, i] => do
     let c ← c.toNat?; let i ← i.toNat?
-    let p ← st.proxies[i]?
-    let pv := proxyViewSrc (falsyOf st) st.w c p
-    let o := match pv.obj with | some b => box st b | none => "RuntimeError"
-    pure (st, s!"{o},{if pv.truthy then "True" else "False"},{if pv.fallbackRepr then "unbound" else "Box"}")
+    let p ← (st.proxies[i]?).join
+    match resolveP attrOf (falsyOf st) st.lw c p with
+    | .obj b => pure (st, s!"{box st b},{if falsyOf st b then "False" else "True"},Box")
+    | .unbound => pure (st, "RuntimeError,False,unbound")
+    | .attrError => pure (st, "AttributeError")
   | ["pmut", c, i, f] => do
     let c ← c.toNat?; let i ← i.toNat?; let f ← f.toNat?
-    let p ← st.proxies[i]?
-    match resolveSrc (falsyOf st) st.w c p with
-    | some b => pure (mutateVal st b f)
-    | none => pure (st, "RuntimeError")
+    let p ← (st.proxies[i]?).join
+    match resolveP attrOf (falsyOf st) st.lw c p with
+    | .obj b => pure (mutateVal st b f)
+    | .unbound => pure (st, "RuntimeError")
+    | .attrError => pure (st, "AttributeError")
+  | ["plook", c, i, name] => do
+    let c ← c.toNat?; let i ← i.toNat?
+    let p ← (st.proxies[i]?).join
+    let e ← findEntry name
+    let r := resolveP attrOf (falsyOf st) st.lw c p
+    let unboundOnly := ["__repr__", "__bool__", "__doc__", "__wrapped__", "__class__"].contains name
+    match lookupGet e r with
+    | .runtimeError => pure (st, "RuntimeError")
+    | .attrError => pure (st, "AttributeError")
+    | .fallback v => pure (st, s!"fallback:{v}")
+    | .forward b =>
+      pure (st, if unboundOnly || (attrOf b).isNone then "skip" else s!"fwd:{box st b}")
+    | .forwardKeepProxy b =>
+      pure (st, if unboundOnly || (attrOf b).isNone then "skip" else s!"keep:{box st b}")
   | ["amut", c, v, k, f] => do
     -- mutate through the attribute value that was read
     let c ← c.toNat?; let v ← v.toNat?; let k ← k.toNat?; let f ← f.toNat?
+    let some v := st.var v | pure (st, "nolocal")
     match (runProg st.w c v { key := k } Gen.LocalOps.localGetattr).2 with
     | .val b => pure (mutateVal st b f)
     | _ => pure (st, "AttributeError")
   | ["tmut", c, v, f] => do
     -- mutate through what `top` returned
     let c ← c.toNat?; let v ← v.toNat?; let f ← f.toNat?
+    let some v := st.var v | pure (st, "nolocal")
     match (runProg st.w c v {} Gen.LocalOps.stackTop).2 with
     | .val b => pure (mutateVal st b f)
     | _ => pure (st, "None")
@@ -150,7 +257,7 @@ def drainCtx (st : St) (c : Nat) : Nat → St → List String → St × List Str
   | 0, s, acc => (s, acc.reverse)
   | fuel + 1, s, acc =>
     let (s', r) := call s c 1 Gen.LocalOps.stackPop {}
-    if r == "None" then (s', acc.reverse) else drainCtx st c fuel s' (r :: acc)
+    if r == "None" || r == "nolocal" then (s', acc.reverse) else drainCtx st c fuel s' (r :: acc)
 
 def trace (ops : List String) : String := Id.run do
   let mut st : St := {}
